@@ -415,6 +415,18 @@ def _():
                         round(float(pyrepseq.powerlaw_mle_alpha(c, method="exact")), 6)], c)
 
 
+@spec("mle_exact_fit_fails_raises", "stats", raises=True)
+def _():
+    # the optimiser is stopped after two iterations: "fitting failed"
+    return S(pyrepseq.powerlaw_mle_alpha, [1, 2, 3, 4, 5, 1, 1, 2, 9, 30], cmin=1, method="exact", options=dict(maxiter=2))
+
+
+@spec("undefined_estimates_are_nan", "stats")
+def _():
+    # calls whose documented answer is "undefined": NaN (with a NumPy warning), never an exception
+    return S(lambda a, c: [pyrepseq.pc(a), pyrepseq.pcDelta(a, bins=[0, 1, 2]), pyrepseq.pc_n(c), pyrepseq.chao2([3, 0, 1], 4)], ["CASSF"], np.array([1]))
+
+
 @spec("mle_bad_method_raises", "stats", raises=True)
 def _():
     return S(pyrepseq.powerlaw_mle_alpha, [1, 2, 3], method="nope")
